@@ -42,18 +42,21 @@ def lean_obligations(pid):
                     if FORBIDDEN.search(ln):
                         res["ok"] = False
                         res["errors"].append(f"forbidden construct in {f}: {ln.strip()[:120]}")
-    pfile = os.path.join(LEAN, "Micm", "Properties", pid + ".lean")
-    if not os.path.exists(pfile):
+    pdir = os.path.join(LEAN, "Micm", "Properties")
+    pfiles = sorted(f for f in os.listdir(pdir) if re.fullmatch(pid + r"[a-z]?\.lean", f))
+    if not pfiles:
         res["ok"] = False
         res["errors"].append("no Properties/" + pid + ".lean")
         return res
-    src = strip_lean_comments(open(pfile).read())
-    names = [n for n in re.findall(r"^\s*theorem\s+([A-Za-z0-9_.']+)", src, flags=re.M) if n.startswith(pid + "_")]
+    names = []
+    for f in pfiles:
+        src = strip_lean_comments(open(os.path.join(pdir, f)).read())
+        names += [n for n in re.findall(r"^\s*theorem\s+([A-Za-z0-9_.']+)", src, flags=re.M) if n.startswith(pid + "_")]
     if not names:
         res["ok"] = False
         res["errors"].append("no theorems in Properties/" + pid + ".lean")
         return res
-    audit = "import Micm.Properties." + pid + "\nopen Micm\n" + "".join(f"#print axioms {n}\n" for n in names)
+    audit = "".join("import Micm.Properties." + f[:-5] + "\n" for f in pfiles) + "open Micm\n" + "".join(f"#print axioms {n}\n" for n in names)
     apath = os.path.join(LEAN, ".lake", f"audit_{pid}.lean")
     open(apath, "w").write(audit)
     r = subprocess.run(["lake", "env", "lean", apath], cwd=LEAN, capture_output=True, text=True)
